@@ -14,7 +14,7 @@ META = {
 
 def run(ctx):
     vlib.standard_proof_stage(ctx)
-    count = 80 if ctx.quick else 300
+    count = 80 if ctx.quick else 500
     maxops = 12 if ctx.quick else 20
     for profile in (("debug",) if ctx.quick else ("debug", "release")):
         binary, log = vlib.cargo_build(profile=profile, bin_name="h_hasher")
